@@ -23,7 +23,10 @@ class Inconclusive(Exception):
 _booted = False
 
 
-def boot (quiet_logs=True):
+LOG_STATS = {"on": False, "records": 0, "unformattable": 0}
+
+
+def boot (quiet_logs=True, verbose_logs=False):
   """
   Import pox.core without creating a core object.  Must be called before
   anything imports unittest.
@@ -47,6 +50,22 @@ def boot (quiet_logs=True):
     logging.getLogger().addHandler(logging.NullHandler())
     logging.getLogger().setLevel(logging.CRITICAL + 10)
     logging.raiseExceptions = False
+  if verbose_logs:
+    # what `log.level --DEBUG` does: every log call of the code under test is
+    # made and its message formatted (into nowhere).  What the code does must
+    # not depend on it.
+    import logging
+    class Sink (logging.Handler):
+      def emit (self, record):
+        LOG_STATS["records"] += 1
+        self.format(record)
+      def handleError (self, record):
+        LOG_STATS["unformattable"] += 1
+    h = Sink()
+    h.setFormatter(logging.Formatter("%(name)s %(levelname)s %(message)s"))
+    logging.getLogger().addHandler(h)
+    logging.getLogger().setLevel(logging.DEBUG)
+    LOG_STATS["on"] = True
 
 
 def make_core (threaded=False, epoll=False, silent=True):
